@@ -1,7 +1,8 @@
 import GmqttVerif.Model.WsConn
 import Driver.Common
 /- end-to-end oracle for MQTT over WebSocket (C18, stream `wsecho`):
-     new | msg b <hex|-> | msg t <hex|-> | recv <n>
+     new [<max_packet_size>] | msg b <hex|-> | msg t <hex|-> | recv <n> | quiet
+   (max_packet_size does not enter the model: it limits MQTT packets of v5 sessions, never WebSocket messages; the sessions here are 3.1.1)
    The WebSocket messages go through the `wsConn` model (reads of 1024 bytes, as the broker's bufio reader issues them);
    the delivered byte stream is framed into MQTT packets and answered by a minimal MQTT 3.1.1 echo model:
    CONNECT -> CONNACK(0), SUBSCRIBE(one filter, QoS 0) -> SUBACK(0), PUBLISH QoS 0 (flags 0) -> the same bytes back
@@ -83,6 +84,7 @@ def frames (s : S) : Nat → S
 def step (s : S) (line : String) : S × String :=
   match words line with
   | ["new"] => ({ slack := s.slack }, "ok")
+  | ["new", _] => ({ slack := s.slack }, "ok")
   | ["msg", k, h] =>
     let m : Msg Nat := if k == "t" then .text (unhex h) else .binary (unhex h)
     let s1 := { s with pending := s.pending ++ [m] }
@@ -92,7 +94,9 @@ def step (s : S) (line : String) : S × String :=
   | ["recv", n] =>
     let n := natOf n
     if s.out.length ≥ n then ({ s with out := s.out.drop n }, hex (s.out.take n))
-    else ({ s with out := [] }, hex s.out ++ (if s.dead then "+closed" else "+timeout"))
+    else ({ s with out := [] }, (if s.dead then "closed:" else "err-timeout:") ++ hex s.out)
+  | ["quiet"] =>
+    ({ s with out := [] }, if s.dead then "closed:" ++ hex s.out else if s.out.isEmpty then "quiet" else hex s.out)
   | _ => (s, "bad-op")
 
 end Driver.WsEcho
